@@ -868,7 +868,7 @@ def phase_sweep(run, pool, maxlen):
             elif prev[0] != dig and len(conflicts) < 5:
                 conflicts.append((key, prev, (dig, job["letters"])))
 
-    large = large_programs_c18()
+    large = large_programs_c18() + matrix_programs_c18()
 
     def all_jobs():
         for j, p in enumerate(large):
@@ -894,7 +894,8 @@ def phase_sweep(run, pool, maxlen):
         "exhaustive_over": ("all 1-letter histories of the full alphabet, all 2-letter histories of the %s alphabet%s"
                             % ("full" if maxlen >= 3 else "reduced", ", all 3-letter histories of the reduced alphabet"
                                if maxlen >= 3 else "")), "distinct_calls_compared_across_histories": len(table),
-        "large_programs": len(large), "history_independence_conflicts": len(conflicts),
+        "large_programs": len(large_programs_c18()), "function_x_kind_matrix_programs": len(matrix_programs_c18()),
+        "history_independence_conflicts": len(conflicts),
         "wall_s": round(time.time() - t, 1)}
     run.stats["sweep_histories"] += n[0]
 
@@ -1090,4 +1091,78 @@ def large_programs_c18(n=300):
     prog("power_iteration", (T1, call("power_iteration", A=S("L1"), max_iter=20, key=1)),
          (D2, call("power_iteration", A=S("L2"), max_iter=20, key=1)))
     prog("nystrom", (D1, call("nystrom", A=S("L1"), rank=4, key=1)), (D2, call("nystrom", A=S("L2"), rank=4, key=1)))
+    return out
+
+
+# =========================================================================================
+# Function x operator-kind matrix (C18): every linear-algebra / algebra entry point on every operator kind,
+# called twice (second time on the same operands), results held, all invariants on.  Exhaustive over the matrix.
+# =========================================================================================
+def matrix_programs_c18():
+    out = []
+
+    def entries(slot, rows, cols):
+        sq = rows == cols
+        x = arr([cols], "f8", 51)
+        X = arr([cols, 2], "f8", 52)
+        xr = arr([rows], "f8", 53)
+        e = [("to_dense", call("to_dense", A=S(slot))), ("flatten", call("flatten", A=S(slot))),
+             ("T", mk("m_T", {"k": "T", "of": {"k": "ref", "slot": slot}})),
+             ("H", mk("m_H", {"k": "H", "of": {"k": "ref", "slot": slot}})),
+             ("to_f4", mk("m_to", {"k": "to", "of": {"k": "ref", "slot": slot}, "dtype": "f4"})),
+             ("neg", mk("m_neg", {"k": "neg", "of": {"k": "ref", "slot": slot}})),
+             ("getitem", mk("m_gi", {"k": "getitem", "of": {"k": "ref", "slot": slot}, "s0": [0, max(1, rows - 1)], "s1": None})),
+             ("pinv_solve", call("pinv_solve", A=S(slot), b=xr)),
+             ("svd", call("svd", A=S(slot), k=1, which="LM"))]
+        if sq:
+            e += [("ann_sa", mk("m_sa", {"k": "ann", "name": "SelfAdjoint", "of": {"k": "ref", "slot": slot}})),
+                  ("diag_exact", call("diag_exact", A=S(slot), k=0)), ("diag_k1", call("diag_default", A=S(slot), k=1)),
+                  ("trace", call("trace_default", A=S(slot))),
+                  ("inv_apply", [call("inv", out="m_inv", A=S(slot)), call("matvec", A=S("m_inv"), x=X),
+                                 call("rmatvec", A=S("m_inv"), x=xr)]),
+                  ("solve", call("solve", A=S(slot), b=X)), ("rsolve", call("rsolve", A=S(slot), b=xr)),
+                  ("solve_gmres", call("solve", A=S(slot), b=x, alg="GMRES", akw={"max_iters": 4}, x0=arr([cols], "f8", 54))),
+                  ("logdet", call("logdet", A=S(slot))), ("slogdet_lu", call("slogdet", A=S(slot), alg="LU")),
+                  ("exp_apply", call("unary_apply", A=S(slot), f="exp", x=x)),
+                  ("sqrt_store", [call("unary", out="m_sqrt", A=S(slot), f="sqrt"), call("matvec", A=S("m_sqrt"), x=x)]),
+                  ("pow2", mk("m_p2", {"k": "matmul", "a": {"k": "ref", "slot": slot}, "b": {"k": "ref", "slot": slot}})),
+                  ("pow-1_apply", call("unary_apply", A=S(slot), f="pow-1", x=x)),
+                  ("eig", call("eig", A=S(slot), k=1, which="LM")), ("eig_arnoldi", call("eig", A=S(slot), k=1, which="LM",
+                                                                                          alg="Arnoldi", akw={"max_iters": 3})),
+                  ("eigmax", call("eigmax_d", A=S(slot))), ("plu", call("plu", A=S(slot))),
+                  ("arnoldi", call("arnoldi", A=S(slot), v0=arr([cols], "f8", 55), max_iters=3)),
+                  ("kron_self", mk("m_kr", {"k": "kron_fn", "a": {"k": "ref", "slot": slot}, "b": {"k": "ref", "slot": slot}})),
+                  ("add_self", mk("m_add", {"k": "add", "a": {"k": "ref", "slot": slot}, "b": {"k": "ref", "slot": slot}}))]
+        return e
+
+    import copy
+    for kname, (slot, rec, rows, cols) in sorted(KINDS.items()):
+        for ename, body in entries(slot, rows, cols):
+            body = body if isinstance(body, list) else [body]
+            steps = [mk(slot, rec)] + [copy.deepcopy(b) for b in body]
+            reps = [copy.deepcopy(b) for b in body if b["op"] == "call" and not b.get("out")]
+            steps += reps
+            for j, s in enumerate(steps):
+                s["id"] = j
+            out.append({"name": "%s/%s" % (ename, kname),
+                        "program": {"property": "C18", "run_seed": 0, "rng0": 6, "config": {"matrix": [ename, kname]},
+                                    "mode": "explicit", "steps": steps}})
+    # PSD-only entry points on the PSD-declared version of every square kind
+    for kname, (slot, rec, rows, cols) in sorted(KINDS.items()):
+        if rows != cols or kname in ("psd", ):
+            continue
+        P_ = _psd(rec) if rec.get("k") != "ann" else rec
+        for ename, body in [("cholesky", call("cholesky", A=S("mp"))),
+                            ("solve_cg", call("solve", A=S("mp"), b=arr([cols], "f8", 56), alg="CG", akw={"max_iters": 4},
+                                              x0=arr([cols], "f8", 57))),
+                            ("solve_chol", call("solve", A=S("mp"), b=arr([cols, 2], "f8", 58), alg="Cholesky")),
+                            ("lanczos", call("lanczos", A=S("mp"), v0=arr([cols], "f8", 59), max_iters=3)),
+                            ("sqrt_lanczos", call("unary_apply", A=S("mp"), f="sqrt", alg="Lanczos", akw={"max_iters": 3},
+                                                  x=arr([cols], "f8", 60)))]:
+            steps = [mk("mp", P_), copy.deepcopy(body), copy.deepcopy(body)]
+            for j, s in enumerate(steps):
+                s["id"] = j
+            out.append({"name": "%s/psd_%s" % (ename, kname),
+                        "program": {"property": "C18", "run_seed": 0, "rng0": 6, "config": {"matrix": [ename, "psd_" + kname]},
+                                    "mode": "explicit", "steps": steps}})
     return out
